@@ -62,10 +62,16 @@ fn size_of_pair<K: Kmer>() -> usize {
 
 pub fn gen(rng: &mut Rng, tier: &str) -> String {
     let k = pick_k(rng, tier);
-    // one homopolymer read of 70 000 bases now and then: more than 65 535 observations of one k-mer (saturation)
-    let saturating = rng.chance(1, if tier == "thorough" { 250 } else { 300 });
+    // one homopolymer-dominated read of up to 70 000 bases now and then: more than 65 535 observations of one k-mer (saturation)
+    let saturating = rng.chance(1, if tier == "thorough" { 200 } else { 150 });
     let reads = if saturating {
-        vec![vec![rng.below(4) as u8; 70000]]
+        // a homopolymer run of more than 65 535 bases, with a few other bases before and after it: the run's k-mer is
+        // observed more often than its u16 count can tell, and its first / last observations carry flanks no other does
+        let b = rng.below(4) as u8;
+        let mut r: Vec<u8> = (0..rng.below(3)).map(|_| rng.below(4) as u8).collect();
+        r.extend(std::iter::repeat(b).take(rng.range(65600, 70000)));
+        r.extend((0..rng.below(4)).map(|_| rng.below(4) as u8));
+        vec![r]
     } else {
         gen_reads(rng, k, if tier == "thorough" { 30 } else { 8 }, if tier == "thorough" { 400 } else { 70 })
     };
@@ -78,7 +84,7 @@ pub fn gen(rng: &mut Rng, tier: &str) -> String {
     let bpu = if target == 1 { kmer_mem + 1 } else { (kmer_mem / (mem * (target - 1))).max(1) };
     let summ = if saturating {
         // thresholds around the u16 saturation point of the count: at 65535 the k-mer is accepted, above it nothing is
-        format!("count:{}", *rng.pick(&[65535usize, 65536, 66000, 69000, 70000, 1]))
+        format!("count:{}", *rng.pick(&[65535usize, 65535, 65536, 70000, 2, 1]))
     } else if rng.chance(1, 2) { format!("count:{}", *rng.pick(&[0usize, 1, 1, 2, 2, 3, 4, 70000])) } else { format!("set:{}", *rng.pick(&[0usize, 1, 1, 2, 3, 4])) };
     // probes: some present k-mers (windows of reads), some random
     let mut probes: Vec<String> = Vec::new();
